@@ -24,6 +24,7 @@ type Clause struct {
 	Line  int
 	Name  string // optional clause name ("ensures[C09] saturating: expr")
 	Known string
+	Aux   bool // invariant that describes how the loop computes (bookkeeping), not what the property needs
 }
 
 type Contract struct {
@@ -740,6 +741,13 @@ func ParseSpecFile(path string, pkg string, requirePrefix bool) (*SpecFile, erro
 				}
 				cl.Kind = "invariant"
 				cl.Tags = t2
+				if strings.HasPrefix(r2, "aux ") {
+					// `invariant[..] aux name: E`: needed by the cut-loop proof only; the run that
+					// explores loops exactly does not check it (a rewritten loop may keep its
+					// books differently without computing anything else)
+					cl.Aux = true
+					r2 = strings.TrimSpace(r2[4:])
+				}
 				name, body := clauseName(r2)
 				cl.Name = name
 				e, err := ParseExpr(body)
